@@ -196,9 +196,30 @@ func periods(r *vk.Run) {
 		default:
 			centre = int64(rng.Range(-5, 5))
 		}
+		// half of the cases mix two far-apart centres (e.g. a date in 2020 with one in 9999 or 1600, or two unrelated
+		// 64-bit values): an ordering that only holds for instants close to each other is not enough
+		centre2 := centre
+		if rng.Bool() {
+			switch rng.Intn(5) {
+			case 0:
+				centre2 = int64(rng.Uint64())
+			case 1:
+				centre2 = 253402300799 - int64(rng.Intn(100000)) // year 9999
+			case 2:
+				centre2 = -62135596800 + int64(rng.Intn(100000)) // year 1
+			case 3:
+				centre2 = int64(rng.Range(1500000000, 1800000000)) // present day
+			default:
+				centre2 = -11644473600 + int64(rng.Intn(1000000)) // year 1601
+			}
+			r.Count("period-pairs-random-two-centres", 1)
+		}
 		pool := make([]*timestamppb.Timestamp, 4)
 		for j := range pool {
 			sec := centre
+			if j%2 == 1 {
+				sec = centre2
+			}
 			if d := int64(rng.Range(-3, 3)); (d > 0 && sec <= math.MaxInt64-d) || (d < 0 && sec >= math.MinInt64-d) {
 				sec += d
 			}
